@@ -58,10 +58,11 @@ def isletter(c):
 # ------------------------------------------------------------ single letters
 
 SL_ALPHA = list('abIx') + ['ä', 'Б', '1', '_', ' ', ' ', '\n', '.', ',', ';', ':', '-', NB, NNB, '(',
-                           'e.g.', 'i.e.', 'U-U-U', 'V-V-V', 'B-B-B', 'The', 'word', '\t', 'a', 'I', 'z.' + NNB + 'B.']
+                           'e.g.', 'i.e.', 'U-U-U', 'V-V-V', 'B-B-B', 'The', 'word', '\t', 'a', 'I', 'z.' + NNB + 'B.', 'a' + NB + 'b', 'b' + NNB + 'c', 'x.']
 sl_text = st.lists(st.sampled_from(SL_ALPHA), max_size=25).map(''.join)
 sl_acc = st.lists(st.sampled_from(['a', 'I', 'e.g.', 'i.e.', 'x', 'A', 'ä', 'a~b', 'b\\,c', '', 'U-U-U', 'V-V-V',
-                                   'a b', 'b a', '.', 'x.', 'z.\\,B.', 'I.', '(a', 'a.', 'b.a']), max_size=4).map('|'.join)
+                                   'a b', 'b a', '.', 'x.', 'z.\\,B.', 'I.', '(a', 'a.', 'b.a',
+                                   'a~b|a', 'i.e.|i', 'e.g.|e', 'x.|x', 'b\\,c|b', 'z.\\,B.|z']), max_size=4).map('|'.join)
 
 
 def ref_isolated(t):
@@ -108,7 +109,29 @@ def check_single(t, acc):
     for i, j in occ:
         if not any((a, b) != (i, j) and a < j and i < b for a, b in occ):
             covered_sure.update(range(i, j))
+    # exact model: the text is scanned from the left; at each place the first listed pattern that occurs there is
+    # taken and the scan continues behind it (patterns "given as list": order matters only for patterns sharing a start)
+    pats = [a for a in acc.split('|') if a]
+    covered_exact = set()
+    i = 0
+    while i < len(t) and pats:
+        hit = None
+        for p in pats:
+            for (a, b) in occurrences(t, p):
+                if a == i:
+                    hit = b
+                    break
+            if hit:
+                break
+        if hit:
+            covered_exact.update(range(i, hit))
+            i = hit
+        else:
+            i += 1
     flagged = [m['offset'] for m in ms]
+    if sorted(flagged) != [k for k in iso if k not in covered_exact]:
+        raise Violation('flagged-letters-differ-from-accept-list-model', case,
+                        {'flagged': sorted(flagged), 'expected': [k for k in iso if k not in covered_exact]})
     if len(set(flagged)) != len(flagged):
         raise Violation('letter-marked-twice', case, flagged)
     for m in ms:
